@@ -335,6 +335,12 @@ func scanNodeWrites(repo string, nodeFiles map[string]*ast.File, bad func(string
 				if id, ok := t.Fun.(*ast.Ident); ok && (id.Name == "delete" || id.Name == "clear") && len(t.Args) >= 1 {
 					rec(t.Args[0])
 				}
+				// a store through a method of sync/atomic, sync.Map, sync.Pool or sync.Once on a field of the
+				// receiver (`r.f.Store(x)`, `r.f.LoadOrStore(k, v)`, `r.f.Put(x)`, `r.f.Do(fn)`): the node
+				// remembers something just as with `r.f = x`
+				if sel, ok := t.Fun.(*ast.SelectorExpr); ok && syncStoreMethods[sel.Sel.Name] {
+					rec(sel.X)
+				}
 			case *ast.RangeStmt:
 				if t.Tok == token.ASSIGN {
 					if t.Key != nil {
@@ -360,3 +366,8 @@ func scanNodeWrites(repo string, nodeFiles map[string]*ast.File, bad func(string
 	})
 	return out
 }
+
+// methods of sync/atomic values, sync.Map, sync.Pool and sync.Once that store
+var syncStoreMethods = map[string]bool{"Store": true, "Swap": true, "CompareAndSwap": true, "LoadOrStore": true,
+	"LoadAndDelete": true, "CompareAndDelete": true, "Add": true, "And": true, "Or": true, "Delete": true, "Clear": true,
+	"Put": true, "Do": true}
